@@ -14,7 +14,9 @@ use flatty::{
     traits::{FlatBase, FlatDefault, FlatUnsized, FlatValidate},
     vec, Emplacer, Error, Flat, FlatString, FlatVec, FlexVec,
 };
-use flatty::portable::{be, le, Bool};
+use flatty::portable::{Bool, Float, Int};
+// The portable scalars are named by their const parameters, not by the `le::`/`be::` aliases: a change that
+// makes two aliases the same type must not stop the harness from compiling (C16 judges the aliases by name).
 use flatty::vec::Length;
 
 pub fn sub(style: u64, i: u64) -> u64 {
@@ -476,18 +478,18 @@ macro_rules! impl_portable_int {
         }
     };
 }
-impl_portable_int!(le::U16, u16, Endian::Le, false);
-impl_portable_int!(le::U32, u32, Endian::Le, false);
-impl_portable_int!(le::U64, u64, Endian::Le, false);
-impl_portable_int!(le::I16, i16, Endian::Le, true);
-impl_portable_int!(le::I32, i32, Endian::Le, true);
-impl_portable_int!(le::I64, i64, Endian::Le, true);
-impl_portable_int!(be::U16, u16, Endian::Be, false);
-impl_portable_int!(be::U32, u32, Endian::Be, false);
-impl_portable_int!(be::U64, u64, Endian::Be, false);
-impl_portable_int!(be::I16, i16, Endian::Be, true);
-impl_portable_int!(be::I32, i32, Endian::Be, true);
-impl_portable_int!(be::I64, i64, Endian::Be, true);
+impl_portable_int!(Int<false, 2, false>, u16, Endian::Le, false);
+impl_portable_int!(Int<false, 4, false>, u32, Endian::Le, false);
+impl_portable_int!(Int<false, 8, false>, u64, Endian::Le, false);
+impl_portable_int!(Int<false, 2, true>, i16, Endian::Le, true);
+impl_portable_int!(Int<false, 4, true>, i32, Endian::Le, true);
+impl_portable_int!(Int<false, 8, true>, i64, Endian::Le, true);
+impl_portable_int!(Int<true, 2, false>, u16, Endian::Be, false);
+impl_portable_int!(Int<true, 4, false>, u32, Endian::Be, false);
+impl_portable_int!(Int<true, 8, false>, u64, Endian::Be, false);
+impl_portable_int!(Int<true, 2, true>, i16, Endian::Be, true);
+impl_portable_int!(Int<true, 4, true>, i32, Endian::Be, true);
+impl_portable_int!(Int<true, 8, true>, i64, Endian::Be, true);
 
 macro_rules! impl_portable_float {
     ($t:ty, $native:ty, $bits:ty, $endian:expr) => {
@@ -509,10 +511,10 @@ macro_rules! impl_portable_float {
         }
     };
 }
-impl_portable_float!(le::F32, f32, u32, Endian::Le);
-impl_portable_float!(le::F64, f64, u64, Endian::Le);
-impl_portable_float!(be::F32, f32, u32, Endian::Be);
-impl_portable_float!(be::F64, f64, u64, Endian::Be);
+impl_portable_float!(Float<false, 4>, f32, u32, Endian::Le);
+impl_portable_float!(Float<false, 8>, f64, u64, Endian::Le);
+impl_portable_float!(Float<true, 4>, f32, u32, Endian::Be);
+impl_portable_float!(Float<true, 8>, f64, u64, Endian::Be);
 
 impl ToValue for Bool {
     fn to_value(&self) -> Value {
@@ -577,12 +579,12 @@ impl_len!(u16, 2, 2, Endian::Native);
 impl_len!(u32, 4, 4, Endian::Native);
 impl_len!(u64, 8, 8, Endian::Native);
 impl_len!(usize, core::mem::size_of::<usize>(), core::mem::size_of::<usize>(), Endian::Native);
-impl_len!(le::U16, 2, 1, Endian::Le);
-impl_len!(le::U32, 4, 1, Endian::Le);
-impl_len!(le::U64, 8, 1, Endian::Le);
-impl_len!(be::U16, 2, 1, Endian::Be);
-impl_len!(be::U32, 4, 1, Endian::Be);
-impl_len!(be::U64, 8, 1, Endian::Be);
+impl_len!(Int<false, 2, false>, 2, 1, Endian::Le);
+impl_len!(Int<false, 4, false>, 4, 1, Endian::Le);
+impl_len!(Int<false, 8, false>, 8, 1, Endian::Le);
+impl_len!(Int<true, 2, false>, 2, 1, Endian::Be);
+impl_len!(Int<true, 4, false>, 4, 1, Endian::Be);
+impl_len!(Int<true, 8, false>, 8, 1, Endian::Be);
 
 // arrays
 impl<T: SizedShape, const N: usize> Shape for [T; N] {
